@@ -17,7 +17,7 @@ def run(ctx):
                 "float16 ties, over-long arrays, invalid tags) -> ser on every target; a third of them also serbuf with cap = advertised size, "
                 "size-1 and size+1 (C/C++); non-trivial = value text is not the empty struct; distinct by (type, op, value)")
     rng = ctx.rng
-    n = 40 if ctx.quick else 120
+    n = 60 if ctx.quick else 120
     reqs = E.corpus_requests(sess, "C01")
     for gt in sess.ns.types:
         mx = R.bounds(gt.expr)[1] // 8
